@@ -5,7 +5,18 @@ Require Import Cherab.Common.Qx.
 Require Import Cherab.Model.C20_Stencil Cherab.Model.C20_Admt.
 Require Import Cherab.Model.C20_Spacing.
 Require Import Cherab.Proofs.C20_Stencil Cherab.Proofs.C20_Admt Cherab.Proofs.C20_Consistency Cherab.Proofs.C20_Spacing.
+Require Import Cherab.Proofs.C20_Source.
 Open Scope Q_scope.
+
+(* an operator row acts on a field through its nine coefficients only, and the rows the code returns are the raw rows
+   divided by the tabled scaling: this is what lets the source tie (coq/Gen/C20/Source.v, regenerated on every run from
+   the syntax tree of generate_derivative_operators, proving coefficient equality with the model for every grid size
+   and cell) carry every theorem below over to the program the source contains *)
+Theorem C20_rows_act_through_their_coefficients :
+  (forall s s' f ix iy, coeffs s = coeffs s' -> apply s f ix iy = apply s' f ix iy) /\
+  (forall o nx ny ix iy dx dy, op_row o nx ny ix iy dx dy = scale (model_scale o dx dy) (raw_row o nx ny ix iy)).
+Proof. split; [exact apply_of_coeffs | exact op_row_is_scaled_raw]. Qed.
+Print Assumptions C20_rows_act_through_their_coefficients.
 
 (* every operator maps a constant field to zero, in every cell of every grid >= 2x2 *)
 Theorem C20_ops_annihilate_constants :
